@@ -79,12 +79,15 @@ type Contract struct {
 	Trusted       bool // extern/interface: assumed, not verified
 	Sig           *types.Signature
 	RecvNonNil    bool
-	CRLF          bool     // crlf-discipline: every raw append of non-constant bytes must be free of CR and LF
-	CRLFExempt    []string // source texts of append calls that are exempt (reported as not covered)
+	CRLF          bool              // crlf-discipline: every raw append of non-constant bytes must be free of CR and LF
+	CRLFExempt    []string          // source texts of append calls that are exempt (reported as not covered)
 	FreshExcept   map[string]string // field path -> reason: not part of this method's fresh-equivalent claim
-	AppendsRaw    bool     // appends-raw: copies unneutralised bytes after its first parameter
+	AppendsRaw    bool              // appends-raw: copies unneutralised bytes after its first parameter
+	ReplayImports []string
 	ReplayGo      []string // hand-written reproductions (test bodies) tried when an obligation of this function fails
-	Pure          bool // trusted-pure: parameter names are not bound
+	ghostRel      int
+	AbstractToo   bool
+	Pure          bool                // trusted-pure: parameter names are not bound
 	Witnesses     []map[string]string // replay seeds: param -> Go literal (string or int)
 }
 
@@ -98,14 +101,14 @@ type GhostUpdate struct {
 }
 
 type SpecFunc struct {
-	Name    string
-	Params  []SpecParam
-	Result  string // int, bool
-	Body    ast.Expr
-	Rec     bool
-	Src     string
-	Pkg     *types.Package
-	Opaque  bool
+	Name   string
+	Params []SpecParam
+	Result string // int, bool
+	Body   ast.Expr
+	Rec    bool
+	Src    string
+	Pkg    *types.Package
+	Opaque bool
 }
 
 type SpecParam struct {
@@ -284,7 +287,7 @@ var clauseKeywords = map[string]bool{
 	"lemma": true, "requires": true, "ensures": true, "top-ensures": true, "modifies": true, "allocates": true,
 	"panics": true, "abstract": true, "nosafety": true, "loop": true, "invariant": true, "top-invariant": true,
 	"decreases": true, "assert": true, "alias": true, "props": true, "recvnonnil": true, "ghostset": true,
-	"end": true, "opaque": true, "witness": true, "trusted-pure": true, "crlf-discipline": true, "crlf-exempt": true, "replay-go": true, "appends-raw": true, "fresh-override": true, "fresh-except": true, "macro": true, "ghostset-at-entry": true,
+	"end": true, "opaque": true, "witness": true, "trusted-pure": true, "crlf-discipline": true, "crlf-exempt": true, "replay-go": true, "appends-raw": true, "fresh-override": true, "fresh-except": true, "macro": true, "ghostset-at-entry": true, "abstract-too": true, "replay-import": true,
 }
 
 // parseContractFile reads the //@ lines of one file.
@@ -482,8 +485,12 @@ func (p *contractParser) line(t string, no int) error {
 			c.FreshExcept = map[string]string{}
 		}
 		c.FreshExcept[strings.TrimSpace(rest[:i])] = strings.TrimSpace(rest[i+2:])
+	case "abstract-too":
+		c.AbstractToo = true // applied at call sites even in abstract-mode functions
 	case "appends-raw":
 		c.AppendsRaw = true
+	case "replay-import":
+		c.ReplayImports = append(c.ReplayImports, strings.Trim(strings.TrimSpace(rest), "\""))
 	case "replay-go":
 		c.ReplayGo = append(c.ReplayGo, rest)
 	case "crlf-discipline":
